@@ -54,7 +54,17 @@ Proof. exact auto_opstr_spec. Qed.
 Theorem T08_hermitian_only_equal_sites : forall flag s1 s2, use_hermitian flag s1 s2 = true -> flag = true /\ s1 = s2.
 Proof. exact hermitian_only_equal_sites. Qed.
 
-(* ---- sample_measurements (Model/Sample.v; hand-modelled from the source, values oracle-checked by harness/c08.py) ---- *)
+(* ---- sample_measurements (Model/Sample.v; hand-modelled from the source).  Tie to the code: the operator selection is run
+   against the implementation (stream sample_ops); the weight loop is run against the implementation in the stream sample_loop
+   of harness/c08.py: Model/SampleCheck.v instantiates the abstract K / V of the model with exact Gaussian rationals and rank-3
+   tensors (proj = take_slice, attach i = tensordot with the observed get_B(i mod L), vnorm = exact Frobenius norm) and
+   check_sample_case evaluates sample_factors / sample_weight on the observed theta0 = get_theta(first_site, 1) and the
+   outcome drawn by the implementation; compared EXACTLY (rationals): every per-site `weight` (the values npc.norm returned
+   inside the call) and the returned total_weight, for complex_amplitude True/False, finite (incl. the full-chain phase
+   branch theta[0,0] / weight) and infinite MPS, any first_site.  Inputs: MPS of 1-5 sites of dimension 4 / 7, bond
+   dimensions 1 / 4, entries unit * 2^-k, so that all floating-point operations of the implementation are exact; ops=None only
+   (the rotation to the eigenbasis of an operator is part of the abstract `proj` and is oracle-checked only).  The returned
+   weights are in addition compared with the dense Born amplitudes by the oracle (stream sample). ---- *)
 (* the loop visits the sites first..last once each in ascending order; the m-th visited site first+m is measured in the
    eigenbasis of ops[m mod len(ops)] (the list is repeated periodically starting at first_site, whatever first_site is) *)
 Theorem T08_sample_ops : forall first last nops, 0 < nops ->
@@ -121,7 +131,17 @@ Theorem T08_window_finite : forall L nops s n, 0 < L -> 0 < nops -> (1 <= n)%nat
   (forall s', In s' (ev_default_sites false L n) <-> 0 <= s' < L).
 Proof. exact window_finite_spec. Qed.
 
-(* ---- term_correlation_function_right / _left (Model/CorrTerm.v on top of term_to_ops_list) ---- *)
+(* ---- term_correlation_function_right / _left (Model/CorrTerm.v on top of term_to_ops_list).  Tie to the code: stream
+   tcf_words of harness/c08.py runs both functions (autoJW=True) on product states with the receivers of the per-site
+   operators recorded from outside (multiply_operators returns the names; _corr_ops_LP / _corr_ops_RP record their operator
+   lists and first site; get_B / get_op calls of the loop over the gap give the sites and the string applied there) and
+   Model/CorrTermCheck.v (check_tcf_case) compares, for every entry of the result (every offset of the moving term), the word
+   on every site of a window reaching one site beyond everything contracted with tcf_right_words / tcf_left_words, letter by
+   letter, and `None` with the two ValueErrors (odd total parity; term_L not left of term_R); random terms with fermionic
+   and bosonic operators, several operators per site, any order, negative relative sites, 1-3 offsets, gaps -1..4, finite and
+   infinite chains with mixed site classes.  On the one-site overlap that the left variant accepts (example below) the
+   implementation contracts the common site twice (in CL with the word of term_L, in CR with the word of term_R); the model
+   has the word of term_L there and the stream compares that one. ---- *)
 (* the symmetry: for the same offsets (i, j) of the two terms -- whatever the first entries i0 / j0 of the lists i_L / j_R
    that the functions use to set up the strings -- the left and the right variant contract the same operator word on every
    site k, namely the documented one (string of term_R across term_L and the gap iff term_R is fermion-odd) *)
@@ -190,8 +210,9 @@ Example T08_example_tcf :
 Proof. vm_compute. split; reflexivity. Qed.
 
 (* as the code has it: the overlap test of the LEFT variant is off by one (`> j` where the right variant effectively has `>= j`):
-   a one-site overlap of term_L and term_R is rejected by the right variant and accepted by the left one, which then contracts
-   only the operators of term_L on the common site (replayed on the code: ValueError vs. a number) *)
+   a one-site overlap of term_L and term_R is rejected by the right variant and accepted by the left one (replayed on the code
+   in every run of the stream tcf_words: ValueError vs. a number); the model then has only the operators of term_L on the
+   common site, the implementation contracts that site once more in CR with the operators of term_R *)
 Example T08_example_tcf_left_accepts_overlap :
   let tL := [mkItem 1 0 false; mkItem 2 1 false] in let tR := [mkItem 3 0 false; mkItem 4 1 false] in
   tcf_right_words tL tR 1 2 2 2 = None /\ tcf_left_words tL tR 1 1 2 2 = Some [Op 2 false].
